@@ -139,7 +139,7 @@ static void h_op(void)
   if (!strcmp(op, "create")) {
     if (G || nT == 0) { h_out("bad-op"); return; }
     G = esl_getopts_Create(T);
-    h_out(G ? "ok" : "einval");
+    h_out(G ? (G->errbuf[0] ? "ok-errbuf-not-empty" : "ok") : "einval");   /* a fresh object carries no message */
     return;
   }
   if (G == NULL) { h_out("nog"); return; }
@@ -172,7 +172,8 @@ static void h_op(void)
   } else if (!strcmp(op, "verify")) {
     report(esl_opt_VerifyConfig(G));
   } else if (!strcmp(op, "reuse")) {
-    h_out("%s", h_status(esl_getopts_Reuse(G)));
+    { int st; strcpy(G->errbuf, "stale message"); st = esl_getopts_Reuse(G);      /* Reuse must also clear an old message */
+      h_out("%s%s", h_status(st), G->errbuf[0] ? "-errbuf-not-empty" : ""); }
   } else if (!strcmp(op, "dump")) {
     do_dump();
   } else h_out("bad-op");
